@@ -6,6 +6,18 @@ PENDING = "check not built yet in this round (specification and driver in progre
 
 # id -> (level text, level note, technique, design ref)
 BUILT = {
+ "C10": ("ThetaStore.tla: holders [declared size, items] under add / get / save / load / concat with their refusals (full, out of "
+         "range incl. negative, empty), three handles so that operands of concat stay observable, and the chain pipeline "
+         "(per-chain files of sizes crossing 10/11/12, any file order, evaluation labelling columns from per-file sizes); TLC "
+         "explores all operation histories to depth 5/6 and all size/order combinations (ChainMajor, LoadIsSaved, CapRespected, "
+         "numeric vs lexicographic key order differing from 11 on). Explored histories run on real ThetaHolder objects of both "
+         "shipped sample types (float64 incl. denormals and values that do not survive float32; shared, empty or control-keyed "
+         "single-effect tables) with real HDF5 files; TraceThetaStore compares declared size and the identity (bit digest) of "
+         "every item of every holder and file after every step; reloaded samples must predict bit-identically; the real "
+         "evaluate_model command is run with chain files in every explored order and its columns / chain ids compared.",
+         "sample identity = SHA-1 of all parameter bytes; evaluation on complete holders.",
+         "TLA+ state machine + TLC exhaustive; spec->code replay of explored histories; code->spec trace validation",
+         "5/C10"),
  "C06": ("ScoreSelect.tla: candidates = sorted unobserved plates minus batch; np.array_split chunk arithmetic incl. empty chunks; "
          "conditioning rows (own + batch plates, one per condition class); holders concatenated in any chunk order; selection = any "
          "allowed plate with no strictly lower allowed plate, nothing iff nothing allowed. TLC enumerates every observed set, batch, "
